@@ -52,7 +52,7 @@ def rename(t, f):
 
 
 class LoopModel:
-    def __init__(self, facts, fn_path, min_arms=100, opaque=None, inline=None, models=None, which=0):
+    def __init__(self, facts, fn_path, min_arms=60, opaque=None, inline=None, models=None, which=0):
         self.F = facts
         self.fn = fn_path
         fn = facts.fns[fn_path]
@@ -184,6 +184,8 @@ class LoopModel:
         key = (owner, vid)
         cur = s.env.get(key)
         if fld is None:
+            if T.is_k(cur):
+                return s        # a local computed from the (already forced) opcode of the current instruction: keep its value
             return s.set(key, T.K(8, v))
         if isinstance(cur, tuple) and cur and cur[0] == "struct":
             extra = getattr(self, "_fields", {})
@@ -253,7 +255,7 @@ def loop_counter_name(facts, fn_path):
     match; failing that, the variable compared in a while-condition `<v> * INSN_SIZE < <len>`"""
     fn = facts.fns[fn_path]
     try:
-        ms = opcode_matches(fn, 100)
+        ms = opcode_matches(fn, 60)
     except Exception:
         ms = []
     for m in ms:
